@@ -24,12 +24,12 @@ var ExcludeFragile = map[string]bool{}
 // package-level variable of type error in a package using @fp.String(useShow=true)), pubfield-generic-base
 // (@fp.GetterPubField / @fp.WithPubField on a defined type over a same-package generic struct whose type
 // parameter X instantiates or renames), deref-hand-into-generic (a hand-written generic IntoX next to a generic
-// @fp.Deref type).
+// @fp.Deref type), json-any-untagged (a field of type `any` without json tag in an @fp.Json / @fp.JsonTag struct;
+// the twin expects omitempty as for every other nilable field).
 var ExcludeShapes = map[string]bool{}
 
-// IncludeShapes switches on shapes the grammar leaves out because the documents do not say what is right
-// (VERIF_C07_INCLUDE_SHAPES): json-any-untagged (a field of type `any` without json tag in an @fp.Json /
-// @fp.JsonTag struct; the twin then expects omitempty as for every other interface-typed field).
+// IncludeShapes switches on productions that are off by default (VERIF_C07_INCLUDE_SHAPES): deref (defined types
+// under @fp.Deref, outside C07's statement; see drawPkg).
 var IncludeShapes = map[string]bool{}
 
 func init() {
